@@ -152,6 +152,19 @@ def trusted_chunk(out: Out, text: str):
 
 
 def _span_info(out: Out, lines: List[str], span: dict, fname: str) -> Optional[dict]:
+    # a span inside a std macro (assert_ne!, write!, ..): use the outermost call site in our file
+    hops = 0
+    while os.path.basename(span.get('file_name', '')) != fname and span.get('expansion') and hops < 8:
+        nxt = span['expansion'].get('span')
+        if not nxt:
+            break
+        lab, prim = span.get('label'), span.get('is_primary')
+        span = dict(nxt)
+        span.setdefault('label', lab)
+        if span.get('label') is None:
+            span['label'] = lab
+        span['is_primary'] = prim
+        hops += 1
     if os.path.basename(span.get('file_name', '')) != fname:
         return {'kind': 'external', 'file': span.get('file_name'), 'line': span.get('line_start'), 'label': span.get('label')}
     d = out.describe(span['line_start'])
@@ -176,11 +189,15 @@ def map_failures(unit: Unit, out: Out, vr: VerusResult, text: str) -> List[Failu
                 fid = i['fn']
                 break
         if fid is None:
-            for i in contract:
-                if i.get('fn'):
+            for i in infos:
+                if i and i.get('fn'):
                     fid = i['fn']
                     break
         clause = 'safety'
+        if d.message.startswith('assertion failed') and not code:
+            clause = 'proof-hint'       # an assertion of a spliced ghost proof block: the proof no longer goes through
+        if 'closure' in d.message:
+            clause = 'closure-postcondition'
         if d.message.startswith('postcondition') or 'invariant' in d.message or 'decreases' in d.message:
             if contract:
                 clause = contract[0]['label'].split('#', 1)[1]
